@@ -106,3 +106,53 @@ def inplace_mutators(model, ci):
             if attrs:
                 out.setdefault(name, set()).update(attrs)
     return out
+
+
+# ---------------------------------------------------------------- module-level caches
+def module_caches(module):
+    """names of module-level dictionaries (NAME = {} / dict())."""
+    out = set()
+    for st in module.tree.body:
+        if isinstance(st, ast.Assign) and len(st.targets) == 1 and isinstance(st.targets[0], ast.Name):
+            v = st.value
+            if (isinstance(v, ast.Dict) and not v.keys) or (isinstance(v, ast.Call) and dotted(v.func) in ('dict', 'collections.OrderedDict')
+                                                             and not v.args and not v.keywords):
+                out.add(st.targets[0].id)
+    return out
+
+
+def cache_store_dependencies(fn, caches):
+    """for every store  CACHE[key] = value  inside fn: (node, cache, names in key, parameters the value depends on).
+    Dependencies are followed backwards through the local assignments of fn (names only, flow-insensitive)."""
+    params = [a.arg for a in fn.args.args + fn.args.kwonlyargs]
+    defs = {}
+    for n in walk_local(fn):
+        if isinstance(n, ast.Assign):
+            names = []
+            for t in n.targets:
+                names += [x.id for x in ast.walk(t) if isinstance(x, ast.Name)]
+            used = {x.id for x in ast.walk(n.value) if isinstance(x, ast.Name)}
+            # attribute reads on parameters count as the parameter itself (self.i -> self)
+            for nm in names:
+                defs.setdefault(nm, set()).update(used)
+
+    def closure(names):
+        seen, todo = set(), list(names)
+        while todo:
+            x = todo.pop()
+            if x in seen:
+                continue
+            seen.add(x)
+            todo.extend(defs.get(x, ()))
+        return seen
+
+    out = []
+    for n in walk_local(fn):
+        if isinstance(n, ast.Assign) and isinstance(n.targets[0], ast.Subscript) and isinstance(n.targets[0].value, ast.Name) \
+                and n.targets[0].value.id in caches:
+            key_names = {x.id for x in ast.walk(n.targets[0].slice) if isinstance(x, ast.Name)}
+            key_attrs = {unparse(x) for x in ast.walk(n.targets[0].slice) if isinstance(x, ast.Attribute)}
+            val_names = closure({x.id for x in ast.walk(n.value) if isinstance(x, ast.Name)})
+            dep_params = {p for p in params if p in val_names}
+            out.append((n, n.targets[0].value.id, key_names, key_attrs, dep_params))
+    return out
